@@ -52,7 +52,7 @@ def flow_trace(ctx, suite, nq, nt, profile="release", chunk=4000, extra=(), labe
     params = {"suite": suite, "profile": profile, "seed": ctx.seed, "n": n, "tier": ctx.tier, "extra": [x for x in extra]}
     if hang:
         for h in hang:
-            ctx.violations.append({"flow": "V", "suite": suite, "op": h.get("op"), "event": h, "why": "hang", "params": params})
+            ctx.violations.append({"flow": "V", "suite": suite, "op": h.get("op"), "event": h, "why": ("driver-abort" if h.get("op") == "driver-abort" else "hang"), "params": params})
     parts, nrec = split_trace(out, chunk)
     to = timeout or (600 if ctx.quick() else 3600)
     res = validate_traces(parts, tag=ctx.pid, timeout=to)
@@ -104,7 +104,7 @@ def flow_programs(ctx, suite, parts_q, parts_t, n_q, n_t, profile="release", ext
         for out, hang in ex.map(gen, range(parts)):
             files.append(out)
             for h in (hang or []):
-                ctx.violations.append({"flow": "V", "suite": suite, "op": h.get("op"), "event": h, "why": "hang", "params": params})
+                ctx.violations.append({"flow": "V", "suite": suite, "op": h.get("op"), "event": h, "why": ("driver-abort" if h.get("op") == "driver-abort" else "hang"), "params": params})
     res = validate_traces(files, tag=ctx.pid, timeout=timeout or (900 if ctx.quick() else 7200))
     ctx.states += res["distinct"]
     ctx.transitions += res["consumed"]
@@ -163,6 +163,9 @@ def flow_symwalk(ctx, acts=None, mode="both", nreg=2, k=4, rescale=True, groups=
     def one(g):
         outp = f"{ctx.dir}/{label}-{g}"
         r = sh([binp, "symwalk", "--out", outp, "--in", tfile, "--table", tab, "--focus", g, "--mode", mode, "--seed", str(ctx.seed)], timeout=7200, check=False)
+        if r.returncode == 101:      # the replayer panicked while shaping an operand with library calls: data, not a tool error
+            return g, {"constructive_executed": 0, "walk_executed": 0, "mismatches": 1,
+                       "first_mismatches": [{"mode": "abort", "why": "driver-abort", "act": ["abort", []], "stderr": r.stdout[-1200:]}]}
         if r.returncode != 0:
             raise ToolError(f"symwalk {g} failed: {r.stdout[-1500:]}")
         return g, json.load(open(outp + ".result.json"))
@@ -207,9 +210,13 @@ def flow_sympair(ctx, acts=None, mode="both", k=1, kg=2, label="sympair"):
     binp = build_harness("release")
     outp = f"{ctx.dir}/{label}-walk"
     r = sh([binp, "sympair", "--out", outp, "--in", tfile, "--table", table_file(), "--mode", mode, "--seed", str(ctx.seed)], timeout=7200, check=False)
-    if r.returncode != 0:
+    if r.returncode == 101:
+        res = {"constructive_executed": 0, "walk_executed": 0, "mismatches": 1,
+               "first_mismatches": [{"mode": "abort", "why": "driver-abort", "act": ["abort", []], "stderr": r.stdout[-1200:]}]}
+    elif r.returncode != 0:
         raise ToolError(f"sympair failed: {r.stdout[-1500:]}")
-    res = json.load(open(outp + ".result.json"))
+    else:
+        res = json.load(open(outp + ".result.json"))
     ctx.states += sd
     ctx.transitions += sg
     ctx.traces += res["constructive_executed"] + res["walk_executed"]
@@ -444,7 +451,7 @@ def flow_dual(ctx, suite, nq, nt, chunk, extra=(), label=None):
     ex = list(extra) + ["--pool", pool_file()]
     hang = run_driver("dev", suite, b, ctx.seed, n, ctx.tier, ex, timeout=3600)
     for h in (hang or []):
-        ctx.violations.append({"flow": "V", "suite": suite, "op": h.get("op"), "event": h, "why": "hang-dev",
+        ctx.violations.append({"flow": "V", "suite": suite, "op": h.get("op"), "event": h, "why": ("driver-abort-dev" if h.get("op") == "driver-abort" else "hang-dev"),
                                "params": {"suite": suite, "profile": "dev", "seed": ctx.seed, "n": n, "tier": ctx.tier, "extra": list(extra)}})
     # the dev trace: no panic (every dev event is compared with the validated release event)
     compare_profiles(ctx, label or suite, a, b, rp={"dual": True, "suite": suite, "n": n, "extra": list(extra), "label": label or suite, "chunk": chunk})
